@@ -20,6 +20,10 @@ RULE = (
     "same model_spec.column_names in the same order as the baseline (pandas materializer, pandas output, model_matrix), "
     "which C02 ties to the reference encoder. Non-trivial = >=1 categorical factor and >=1 interaction, compared across "
     ">=2 materializers or >=2 outputs; distinct by (case, variant)."
+    " Additionally: the spec produced by the first variant of each case (its own encoder state) re-applied to the same "
+    "data regenerates that variant's matrix; a contrast of a drawn kind on a drawn column is added as a term of its own in "
+    "a third of the cases; integer columns of other widths (products beyond the dtype's range) and an Arrow table split into "
+    "two chunks with their own dictionaries vs its combine_chunks()."
 )
 ASSUMPTIONS = [
     "chunk-layout relation (two Arrow chunks with their own dictionaries vs combine_chunks()) is evaluated without row removal (na_action=ignore)",
@@ -112,7 +116,8 @@ def check_case(case) -> Outcome:
         output, entry, mat = variant
         feat = dict(output=output, entry=entry, mat=mat, na=case["na_action"])
         out.label("mat:" + mat, "entry:" + entry, "out:" + output)
-        mm = run_variant(s, df, variant, opts, whole.model_spec, structured)
+        full = _run_variant(s, df, variant, opts, whole.model_spec)
+        mm = full.rhs if structured else full
         vnames = list(mm.model_spec.column_names)
         if vnames != names:
             out.fail("column-names-agree", f"{s!r} ({opts}) variant {variant}: {vnames} vs baseline {names}", **feat)
@@ -129,6 +134,19 @@ def check_case(case) -> Outcome:
             out.fail("values-agree", f"{s!r} ({opts}) variant {variant}: columns {bad} differ\n variant {V.tolist()}\n baseline {B.tolist()}", **feat)
         if output == "pandas" and list(mm.columns) != names:
             out.fail("pandas-labels", f"{s!r} variant {variant}: {list(mm.columns)}", **feat)
+        if variant is case["variants"][0] and V.shape == B.shape:
+            # the spec produced *by this variant* (its own encoder state) regenerates the variant's matrix
+            import pyarrow as pa
+
+            data = pa.Table.from_pandas(df, preserve_index=False) if mat == "nw-arrow" else df
+            try:
+                again = full.model_spec.get_model_matrix(data, context={})  # (all parts: the rows dropped are pooled)
+                again = again.rhs if structured else again
+                A = dense(again).reshape(-1, len(names)) if names else np.zeros((again.shape[0], 0))
+                if list(again.model_spec.column_names) != names or A.shape != V.shape or not np.allclose(A, V, rtol=1e-12, atol=1e-12, equal_nan=True):
+                    out.fail("variant-spec-regenerates", f"{s!r} ({opts}) variant {variant}: its own spec re-applied to the same data gives {list(again.model_spec.column_names)} / shape {A.shape}", **feat)
+            except Exception as e:
+                out.fail("variant-spec-regenerates", f"{s!r} ({opts}) variant {variant}: its own spec re-applied to the same data raises {type(e).__name__}: {str(e)[:160]}", **feat)
     if case.get("chunked") is not None and len(df) >= 2:
         chunk_layout(out, s, df, opts, case["chunked"], structured)
     return out
@@ -188,9 +206,17 @@ CUSTOM = [
 ]
 
 
+FOCUS = [{"kind": "SAS"}, {"kind": "sum"}, {"kind": "helmert"}, {"kind": "diff"}, {"kind": "poly"}, {"kind": "treatment", "base": None}, None]
+
+
 def _with_custom(fc, pick):
     if pick is None:
         return fc
+    if isinstance(pick, list):
+        # a contrast of a drawn kind on a drawn column, as a term of its own (every kind reaches every output)
+        col, k = pick
+        f = {"k": "C", "col": col, "contrast": FOCUS[k % len(FOCUS)]}
+        return {"intercept": fc["intercept"], "terms": F.normalize_terms(fc["terms"] + [[f]])}
     cf, how = pick
     extra = [[cf]] if how == 0 else ([[cf, {"k": "num", "col": "x"}]] if how == 1 else [[cf], [cf, {"k": "num", "col": "y"}]])
     return {"intercept": fc["intercept"], "terms": F.normalize_terms(fc["terms"] + extra)}
@@ -207,7 +233,8 @@ def gen(max_rows=10):
     return st.builds(
         lambda fr, fc, efr, na, vs, two, ren, ch, nar: {"frame": fr, "formula": _int_product(fc, nar, ren), "efr": efr, "na_action": na, "variants": [list(v) for v in vs], "twosided": two, "rename": ren, "chunked": ch, "narrow": None if ren else nar},
         F.frame(max_rows=max_rows, nulls=True, index_kinds=("default", "default", "shuffled", "strings"), bool_col=True),
-        st.builds(_with_custom, F.formulas(num_cols=F.NUM_COLS + ["t"]), st.one_of(st.none(), st.none(), st.none(), st.tuples(st.sampled_from(CUSTOM), st.integers(0, 2)))),
+        st.builds(_with_custom, F.formulas(num_cols=F.NUM_COLS + ["t"]), st.one_of(st.none(), st.none(), st.none(), st.tuples(st.sampled_from(CUSTOM), st.integers(0, 2)),
+                                                                             st.tuples(st.sampled_from(["A", "B", "G"]), st.integers(0, 20)).map(list), st.tuples(st.sampled_from(["A", "B", "G"]), st.integers(0, 20)).map(list))),
         st.booleans(),
         st.sampled_from(["drop", "drop", "ignore"]),
         st.lists(variant, min_size=3, max_size=6, unique=True),
